@@ -7,6 +7,7 @@ import (
 	"time"
 
 	corev1 "k8s.io/api/core/v1"
+	storagev1 "k8s.io/api/storage/v1"
 	"sigs.k8s.io/controller-runtime/pkg/client"
 
 	v1 "sigs.k8s.io/karpenter/pkg/apis/v1"
@@ -17,11 +18,14 @@ import (
 // Event of a protocol history.
 type Event struct {
 	// Op: rn (reconcile Node) | rc (reconcile NodeClaim) | delNode | delClaim | podGone | podTerm | podAdd | vaGone |
+	// vaTerm (the attach-detach controller deletes the attachment; the attacher's finalizer holds the object) |
+	// vaAdd (a new attachment of the node appears, e.g. for the volume of a pod that landed late) |
 	// tick | instGone | ready | notReady | restart
 	Op     string            `json:"op"`
 	Name   string            `json:"name,omitempty"`
 	D      int64             `json:"d,omitempty"`
 	Pod    *PodIn            `json:"pod,omitempty"`
+	VA     *VAIn             `json:"va,omitempty"`
 	Faults map[string]string `json:"faults,omitempty"`
 }
 
@@ -69,8 +73,10 @@ type Digest struct {
 	Claim    ClaimDigest `json:"claim"`
 	Pods     []PodFact   `json:"pods"`
 	VAs      []string    `json:"vas"`
-	Instance string      `json:"instance"`
-	Lost     bool        `json:"lost"`
+	// VAsTerminating: the attachments of the node that carry a deletionTimestamp
+	VAsTerminating []string `json:"vasTerminating"`
+	Instance       string   `json:"instance"`
+	Lost           bool     `json:"lost"`
 	// for reconcile events
 	Calls  []string `json:"calls"`
 	Result string   `json:"result"`
@@ -108,7 +114,7 @@ func (w *world) lost() bool {
 }
 
 func (w *world) digest() Digest {
-	d := Digest{Now: rel(w.clk.Now()), Pods: []PodFact{}, VAs: []string{}, Calls: []string{}, Result: "", Err: false}
+	d := Digest{Now: rel(w.clk.Now()), Pods: []PodFact{}, VAs: []string{}, VAsTerminating: []string{}, Calls: []string{}, Result: "", Err: false}
 	if n := w.node(nodeNm); n != nil {
 		d.Node = NodeDigest{Exists: true, Deleting: n.DeletionTimestamp != nil, Finalizer: hasFinalizer(n), Tainted: isTainted(n), Ready: "False"}
 		if readyOf(n) == "True" {
@@ -135,6 +141,9 @@ func (w *world) digest() Digest {
 	for _, va := range w.vas() {
 		if va.Spec.NodeName == nodeNm {
 			d.VAs = append(d.VAs, va.Name)
+			if va.DeletionTimestamp != nil {
+				d.VAsTerminating = append(d.VAsTerminating, va.Name)
+			}
 		}
 	}
 	_, d.Instance = w.latestInstance()
@@ -168,7 +177,7 @@ func implProto(raw json.RawMessage) (any, error) {
 		objs = append(objs, buildPod(p, i)...)
 	}
 	for _, v := range in.VAs {
-		objs = append(objs, buildVA(v))
+		objs = append(objs, buildVA(v, in.Now))
 	}
 	w := newWorld(in.Now, objs...)
 	if in.Mode != "fresh" {
@@ -228,7 +237,30 @@ func implProto(raw json.RawMessage) (any, error) {
 				}
 			}
 		case "vaGone":
+			// the detach completed: the attacher drops its finalizer and the object disappears
 			w.ot.Delete(gvrVA, "", e.Name)
+		case "vaAdd":
+			if e.VA != nil {
+				if _, err := w.ot.Get(gvrVA, "", e.VA.Name); err != nil {
+					must(w.c.Create(baseCtx(), buildVA(*e.VA, rel(w.clk.Now()))))
+				}
+			}
+		case "vaTerm":
+			// a real Delete through the client: the object keeps existing (finalizer) with a deletionTimestamp
+			if o, err := w.ot.Get(gvrVA, "", e.Name); err == nil {
+				va := o.(*storagev1.VolumeAttachment).DeepCopy()
+				if va.DeletionTimestamp == nil {
+					must(w.c.Delete(baseCtx(), va))
+					if o2, err := w.ot.Get(gvrVA, "", e.Name); err == nil {
+						cur := o2.(*storagev1.VolumeAttachment).DeepCopy()
+						if cur.DeletionTimestamp != nil {
+							ts := mt(floorSec(rel(w.clk.Now())))
+							cur.DeletionTimestamp = &ts // deterministic (the fake client takes the wall clock)
+							must(w.ot.Update(gvrVA, cur, ""))
+						}
+					}
+				}
+			}
 		case "tick":
 			w.clk.Step(time.Duration(e.D))
 		case "instGone":
@@ -360,8 +392,13 @@ func genProto(r *rand.Rand, t core.Tier) any {
 			}
 		case x < 0.84:
 			if name, ok := anyKey(r, vasLeft); ok {
-				in.Events = append(in.Events, Event{Op: "vaGone", Name: name})
-				delete(vasLeft, name)
+				if r.Float64() < 0.45 {
+					// deleted by the attach-detach controller, the detach itself is still going on
+					in.Events = append(in.Events, Event{Op: "vaTerm", Name: name})
+				} else {
+					in.Events = append(in.Events, Event{Op: "vaGone", Name: name})
+					delete(vasLeft, name)
+				}
 			}
 		case x < 0.90:
 			in.Events = append(in.Events, Event{Op: "instGone"})
@@ -372,6 +409,14 @@ func genProto(r *rand.Rand, t core.Tier) any {
 		case x < 0.96:
 			in.Events = append(in.Events, Event{Op: pick(r, []string{"delNode", "delClaim"})})
 		case x < 0.98:
+			if r.Float64() < 0.4 {
+				// an attachment appears late (possibly after VolumesDetached was recorded True)
+				v := VAIn{Name: fmt.Sprintf("va-late-%d", added), PV: r.IntN(4)}
+				added++
+				in.Events = append(in.Events, Event{Op: "vaAdd", VA: &v})
+				vasLeft[v.Name] = true
+				break
+			}
 			// a pod lands on the node after the taint (the scheduler had not seen it yet)
 			p := PodIn{Name: fmt.Sprintf("pod-late-%d", added), Tol: pick(r, []string{"none", "none", "exact"}), Phase: "Running", PV: -1}
 			added++
@@ -455,9 +500,9 @@ func sortedNames(m map[string]bool) []string {
 
 // ---------------------------------------------------------------- enumeration
 
-// enumProto: scripted histories with every single fault position. Eight scripts (happy paths started from either
+// enumProto: scripted histories with every single fault position. Eleven scripts (happy paths started from either
 // object, not-ready node with the instance gone, volume attachments with and without a grace period, a late pod, a
-// slow instance, launch followed by deletion); for each reconcile event of each script, each fault kind x class is
+// slow instance, launch followed by deletion, attachments that linger in deletion with and without a grace period, an attachment that appears late); for each reconcile event of each script, each fault kind x class is
 // injected at that event alone.
 func enumProto(t core.Tier) []any {
 	var out []any
@@ -494,6 +539,18 @@ func enumProto(t core.Tier) []any {
 		// 8: restart in the middle, both deleted
 		base("running", &g, []PodIn{pod}, []VAIn{{Name: "va-0", PV: 1}},
 			[]Event{{Op: "delNode"}, {Op: "delClaim"}, rn, {Op: "restart"}, rc, {Op: "podGone", Name: "pod-0"}, tick(6 * second), rn, {Op: "vaGone", Name: "va-0"}, rn, rn, {Op: "instGone"}, rc, rn, rc}),
+		// 9: the attach-detach controller deletes the attachment once the pod is gone, but the detach takes its time: the
+		// object lingers with a deletionTimestamp (attacher's finalizer) over several reconciles, then disappears
+		base("running", nil, []PodIn{pod}, []VAIn{{Name: "va-0", PV: 1}, {Name: "va-1", PV: -1, Deleting: true}},
+			[]Event{{Op: "delNode"}, rn, {Op: "podGone", Name: "pod-0"}, rn, tick(6 * second), rn, {Op: "vaTerm", Name: "va-0"}, rn, tick(2 * second), rn, tick(40 * second), rn, {Op: "vaGone", Name: "va-0"}, rn, rn, {Op: "instGone"}, rn, rc, rc}),
+		// 10: an attachment that is already being deleted when the node starts terminating and whose detach never
+		// completes (detach error recorded): only the grace period releases the node
+		base("running", &g, []PodIn{}, []VAIn{{Name: "va-0", PV: 1, Deleting: true, Unattached: true}},
+			[]Event{{Op: "delClaim"}, rc, rn, tick(6 * second), rn, rn, tick(15 * second), rn, rn, {Op: "instGone"}, rn, rc, rc}),
+		// 11: an attachment appears after VolumesDetached was recorded True and the instance was asked to terminate:
+		// the stage goes back to waiting
+		base("running", nil, []PodIn{}, []VAIn{},
+			[]Event{{Op: "delNode"}, rn, rn, tick(6 * second), rn, rn, rn, {Op: "vaAdd", VA: &VAIn{Name: "va-late", PV: 3}}, rn, {Op: "instGone"}, rn, {Op: "vaGone", Name: "va-late"}, rn, rn, rc, rc}),
 	}
 	for _, s := range scripts {
 		out = append(out, s)
@@ -581,6 +638,7 @@ func protoLabels(raw json.RawMessage, impl any) []string {
 			}
 		}
 	}
+	l = append(l, vaLabels(in.VAs)...)
 	if o, ok := impl.(map[string]any); ok {
 		if rm, ok := o["removed"].([]any); ok {
 			for _, s := range rm {
